@@ -336,6 +336,30 @@ let run_genops fields = match fields with
   | _ -> failwith "genops: want 4 fields"
 
 
+(* ---- C16: edit scripts; the theorem's hypothesis and bound evaluated by the extracted definitions ---- *)
+let run_editbound fields = match fields with
+  | [seed; head; sums; basis; script] ->
+    let h = parse_head head in
+    let sums = List.map (fun s -> match split ':' s with
+      | [s1; s2] -> (z_of_string s1, bytes_of_hex s2)
+      | _ -> failwith "bad sum") (split ';' sums) in
+    let basis = bytes_of_hex basis in
+    let ps = List.map (fun s ->
+      if String.length s > 0 && s.[0] = 'C' then
+        (match split ':' (String.sub s 1 (String.length s - 1)) with
+         | [c; l] -> Copy (z_of_string c, z_of_string l)
+         | _ -> failwith "bad copy piece")
+      else Ins (bytes_of_hex (String.sub s 1 (String.length s - 1)))) (split ';' script) in
+    let seed = z_of_string seed in
+    let target = build basis ps in
+    let na = no_accident_check h_native seed h sums basis ps in
+    let bound = Z.add (ins_bytes ps) (Z.mul (Z.mul (z_of_int 2) (Z.sub h.h_blen (z_of_int 1))) (copies ps)) in
+    (match send_one h_native seed (chunk_for sums target) h sums target with
+     | SOk (_, toks, _) ->
+       Printf.sprintf "lits=%s|na=%d|bound=%s" (string_of_z (lits toks)) (if na then 1 else 0) (string_of_z bound)
+     | SCrash _ | SFuel -> "MODELFAIL")
+  | _ -> failwith "editbound: want 5 fields"
+
 (* ---- sender request loop over a whole session ---- *)
 let run_ssession fields = match fields with
   | [seed; dry; files; req] ->
@@ -634,6 +658,7 @@ let dispatch comp fields =
   | "acl" -> run_acl fields
   | "md4" -> run_md4 fields
   | "sender" -> run_sender fields
+  | "editbound" -> run_editbound fields
   | "recv" -> run_recv fields
   | "mux" -> run_mux fields
   | "popt" -> run_popt fields
